@@ -6,7 +6,7 @@ from batch_common import *
 HARNESSES = {}; QUERIES = []
 # export cycles: (queue, batch, records, ticket history, interference budget)
 SHAPES_Q = [(2, 1, 2, 0, 0), (4, 2, 4, 0, 0), (4, 2, 4, 1, 0), (4, 2, 3, 2, 1), (4, 2, 2, 2, 3), (4, 2, 2, 0, 2)]
-SHAPES_T = [(2, 1, 1, 0, 0), (2, 1, 0, 0, 0), (4, 2, 1, 0, 0), (4, 2, 2, 0, 0), (4, 2, 3, 0, 0), (4, 2, 3, 1, 0), (4, 2, 4, 2, 0), (4, 2, 2, 2, 1), (4, 2, 2, 2, 5), (4, 2, 3, 1, 4), (4, 3, 3, 1, 1), (3, 3, 3, 1, 0), (4, 4, 4, 2, 0), (2, 1, 1, 2, 3)]
+SHAPES_T = [(2, 1, 1, 0, 0), (2, 1, 0, 0, 0), (4, 2, 1, 0, 0), (4, 2, 2, 0, 0), (4, 2, 3, 0, 0), (4, 2, 3, 1, 0), (4, 2, 4, 2, 0), (4, 2, 2, 2, 1), (4, 2, 2, 2, 5), (4, 2, 3, 1, 4), (4, 3, 3, 1, 1), (3, 3, 3, 1, 0), (4, 4, 4, 2, 0), (2, 1, 1, 2, 3), (6, 3, 6, 1, 0), (6, 3, 5, 2, 3), (5, 2, 5, 2, 0), (6, 2, 6, 1, 2), (3, 1, 3, 2, 5)]
 for logs in (False, True):
     for tier, shapes in (('quick', SHAPES_Q), ('thorough', SHAPES_T)):
         for (q, b, k, t, i) in shapes:
@@ -15,8 +15,8 @@ for logs in (False, True):
             add_query(HARNESSES, QUERIES, logs, q, b, k, t, i, 'h_export_cycle', 'export_cycle', tier_)
     for (q, b) in ((2, 1), (4, 2)):
         add_query(HARNESSES, QUERIES, logs, q, b, q, 0, 0, 'h_drop_only_when_full', 'drop_only_when_full', 'quick' if (q == 2 or not logs) else 'thorough')
-BOUNDS = ['max_queue_size 2..4, max_export_batch_size 1..4, 0..4 records produced before the cycle, every size concrete per query (one query per shape, listed in samples)',
+BOUNDS = ['max_queue_size 2..6, max_export_batch_size 1..4, 0..6 records produced before the cycle, every size concrete per query (one query per shape, listed in samples)',
           'ticket history classes: ForceFlush never used / used earlier and completed / one flush outstanding', 'while the worker is inside the exporter (first Export call and/or the exporter ForceFlush), a concurrent producer call and/or a concurrent ForceFlush ticket, one concrete pattern per query']
 OUTSIDE = ['real interleavings of producers with the worker (the lock-free queue under every interleaving is C11; here producer calls and ticket issues happen at the points where the worker is inside the exporter)',
-           'per-producer order for several producer threads beyond "the queue is FIFO and each Add is atomic" (C11)', 'schedule_delay / exporter latency (time does not enter OnEnd/Export)', 'queue sizes above 4', 'DoBackgroundWork loop itself (its body is Export / DrainQueue, which are run directly)']
+           'per-producer order for several producer threads beyond "the queue is FIFO and each Add is atomic" (C11)', 'schedule_delay / exporter latency (time does not enter OnEnd/Export)', 'queue sizes above 6', 'DoBackgroundWork loop itself (its body is Export / DrainQueue, which are run directly)']
 ASSUMPTIONS = BATCH_ASSUMPTIONS
